@@ -28,7 +28,7 @@ func invokes(in ssa.Instruction, pkgSuffix, name string) bool {
 }
 
 func runC09(c *core.Ctx) core.Meta {
-	c.Load(dispPkg, resPkg, cpPkg)
+	c.Load(dispPkg, resPkg, cpPkg, cuPkg, "amd/samples/runner/timingconfig/mi300a", "amd/samples/runner/timingconfig/r9nano")
 	c.BuildSSA()
 	prov := core.NewProv(c)
 	pd := NewPkgInfo(c, dispPkg)
@@ -840,6 +840,9 @@ func runC09(c *core.Ctx) core.Meta {
 			c.ReportAt("R09.5", fn, fn.Pos(), sp.fn+":reservedWGs", "the reservation table is not updated ("+sp.what+"): a work-group could be freed twice or never")
 		}
 	}
+
+	// ---------------- R09.7 announced capacities (c09cfg.go) ----------------
+	checkAnnouncedCapacities(c)
 
 	return core.Meta{Level: "other",
 		Explanation: "Structural clauses of work-group dispatch decided on SSA of the dispatcher, the three placement algorithms (as siblings of one interface), the CU resource bookkeeping and the CP's dispatcher selection: valid location only after a successful reservation on the named CU, counter/slot updates on the success path, SEND-DISCIPLINE and PAIR on the map request, completion accounting per ID, launch response only under kernelCompleted() (whose three conjuncts are checked), idle-dispatcher selection, reserve/commit/clear/free symmetry of masks, status constants, slot counts and offset granularities.",
